@@ -1,7 +1,7 @@
 """C14 — TOMTOM scores and p-values (TomtomScoreOps / TomtomScore design model / TomtomScore_Oracle)."""
 from .. import core
 
-RULE = ("Design model: TomtomScore.tla — every small similarity matrix with the specified result; laws CdfMonotone, NoDrop (the "
+RULE = ("Design models: TomtomNull.tla — the code's null-distribution algorithm (span pmfs by convolution, pairwise-max recursion, the three B loops) stepped loop by loop, with the theorem that the CDF it ends with equals the product over offsets of the brute-force CDFs of the definition, for every small instance; the as-found zero-bin loop violates SpanMass. TomtomScore.tla — every small similarity matrix with the specified result; laws CdfMonotone, NoDrop (the "
         "null CDF reaches 1: no mass lost), PValueRange, Alignment; DropZeroBin=TRUE (as found) must violate NoDrop. M3: random "
         "query/target sets on a k/8 PWM grid (queries shorter, equal, longer than targets; self-comparison; with and without "
         "reverse complement; n_score_bins 10-50): the integerised similarity matrix is taken from the code's own integeriser, "
@@ -16,6 +16,9 @@ TOL = 1e-9
 def run(ctx):
     ctx.model_check("TomtomScore", "TomtomScore_MC_quick.cfg" if ctx.quick else "TomtomScore_MC_thorough.cfg")
     ctx.spec_mutant("TomtomScore", "TomtomScore_MC_asfound.cfg", violated="NoDrop")
+    # the ALGORITHM (span pmfs by convolution, maximum by the pairwise-max recursion, the three B loops) equals the definition
+    ctx.model_check("TomtomNull", "TomtomNull_MC_quick.cfg" if ctx.quick else "TomtomNull_MC_thorough.cfg", timeout_s=3000)
+    ctx.spec_mutant("TomtomNull", "TomtomNull_MC_asfound.cfg", violated="SpanMass")
     nw = 4
     per = 30 if ctx.quick else 500
     gen = ctx.run_impl("c14", [dict(id=k, seed=ctx.seed * 7 + k, n=per, big=not ctx.quick) for k in range(nw)], nproc=nw, timeout_s=3000,
